@@ -136,6 +136,7 @@ def shards(tier):
             sh['kind'] = 'dev'
             out.append(sh)
     out.append({'kind': 'letters'})
+    out.append({'kind': 'samevalue'})
     for i in range(len(CHAINS)):
         out.append({'kind': 'multi', 'first': i})
     out.append({'kind': 'fullhouse'})
@@ -191,6 +192,19 @@ def gen(shard, tier):
             yield {'kind': 'single', 'seq': c + c, 'slots': {'nterm': [['1.5', 1]]}}, 1, True
         yield {'kind': 'single', 'seq': string.ascii_uppercase, 'slots': {}}, 0, False
         yield {'kind': 'single', 'seq': '', 'slots': {}}, 0, False
+    elif shard['kind'] == 'samevalue':
+        # one number written as an integer in one slot and as a decimal in another slot of the same peptide: each is
+        # written back the way it was read (both spellings are the library's own: str(15), str(15.0))
+        slots = ['labile', 'unknown', 'nterm', 'r0', 'rmid', 'rlast', 'iv', 'cterm']
+        for a, b in itertools.permutations(slots, 2):
+            for t1, t2 in (('15', '15.0'), ('15.0', '15'), ('-2', '-2.0'), ('1', '1.0')):
+                for m in (1, 2):
+                    sl = {}
+                    for slot, t in ((a, t1), (b, t2)):
+                        sl[slot] = [[0, 2, False, [[t, m]]]] if slot == 'iv' else [[t, m]]
+                    yield {'kind': 'single', 'seq': 'PEK', 'slots': sl, 'canonical_text': True}, 2, True
+        for t1, t2 in (('15', '15.0'), ('15.0', '15')):
+            yield {'kind': 'single', 'seq': 'PEK', 'slots': {'r0': [[t1, 1], [t2, 1]]}, 'canonical_text': True}, 2, True
     elif shard['kind'] == 'multi':
         i = shard['first']
         for j in range(len(CHAINS)):
@@ -265,6 +279,10 @@ def check(case, ctx):
             if hasattr(a, 'annotations'):
                 ctx.fail('parse-kind', 'single annotation', 'multi', text=s)
                 continue
+            if case.get('canonical_text') and not plus:
+                st9, s9 = lib.call(p.serialize, a)
+                if st9 != 'ok' or s9 != s:
+                    ctx.fail('serialize-keeps-spelling', s, s9, text=s)
             exp = pmodel.expected(P, plus)
             obs = pmodel.observed(a)
             d = pmodel.diff(exp, obs)
